@@ -15,7 +15,8 @@ for every horizon `basis`, every run list and every value type.
 * `runToArrayNp_homogeneous`  the numpy layer (shape from the template, broadcasting) is the generic one on homogeneous runs
 * `runToCbounds_entries`, `runToCbounds_partition`, `runToCbounds_perm`
 * `care_spec`, `care_spec_vec`, `on_spec`, `on_odd`  (the on-intervals INCLUDE their end)
-* `supply_spec`, `supplyBounds_spec`  per slot `(−hi, −lo)`; `supply_basis2_defect` exhibits the `basis = 2` mis-read
+* `supply_spec`, `supplyBounds_spec`, `supplyBounds_eq`  per slot `(−hi, −lo)` for EVERY basis (code after fix 375582f);
+  `supply_basis2_regression` records what the old `(2, basis)` reading did at `basis = 2` (labelled, not the model)
 * `tableBounds_spec`, `load_bounds_spec`, `supply_bounds_spec`  the loaded leaf's bounds are that expansion
 * value semantics: every function returns new values; the inputs are immutable Lean values, so
   "inputs unchanged" is by construction here — the Python side's `deepcopy` / aliasing is checked by the oracle.
@@ -361,8 +362,9 @@ theorem boundsOrdered_iff (n : ℕ) (lo hi : ℕ → ℝ) :
     boundsOrdered n lo hi = true ↔ ∀ t, t < n → lo t ≤ hi t := by
   simp [boundsOrdered]
 
-/-- for `basis ≠ 2` and ordered input bounds the supply device gets exactly `(−hi, −lo)` per slot. -/
-theorem supplyBounds_spec (basis : ℕ) (lo hi : ℕ → ℝ) (hb : basis ≠ 2) (hord : ∀ t, t < basis → lo t ≤ hi t) :
+/-- **supply, every horizon (incl. `basis = 2`).** For ordered input bounds the supply device gets
+exactly `(−hi, −lo)` per slot, and the call does not raise. -/
+theorem supplyBounds_spec (basis : ℕ) (lo hi : ℕ → ℝ) (hord : ∀ t, t < basis → lo t ≤ hi t) :
     ∃ q, supplyBounds basis lo hi = .ok q ∧ ∀ t, q.1 t = - hi t ∧ q.2 t = - lo t := by
   refine ⟨supplyPair lo hi, ?_, supply_spec lo hi⟩
   have : boundsOrdered basis (supplyPair lo hi).1 (supplyPair lo hi).2 = true := by
@@ -372,28 +374,54 @@ theorem supplyBounds_spec (basis : ℕ) (lo hi : ℕ → ℝ) (hb : basis ≠ 2)
     simp only [supplyPair]
     linarith
   unfold supplyBounds
-  simp only [readPair, if_neg hb]
   rw [if_pos this]
 
-example : (3 : ℕ) ≠ 2 ∧ ∀ t, t < 3 → (fun _ => (0 : ℝ)) t ≤ (fun _ => (2 : ℝ)) t := by
-  refine ⟨by decide, fun t _ => by norm_num⟩
+example : ∀ t, t < 2 → (fun t => if t = 0 then (1 : ℝ) else 0) t ≤ (fun t => if t = 0 then (5 : ℝ) else 2) t := by
+  intro t ht
+  have : t = 0 ∨ t = 1 := by omega
+  rcases this with rfl | rfl <;> norm_num
 
-/-- **defect at `basis = 2`** (the model follows the code): the `(2, basis)` array is read as a
-per-slot table, so slot 0 gets `(−hi 0, −hi 1)` instead of `(−hi 0, −lo 0)`. With bounds
-`[(1,5), (0,2)]` the device gets `[(-5,-2), (-1,0)]`, not `[(-5,-1), (-2,0)]`. -/
-theorem supply_basis2_defect :
-    ∃ q, supplyBounds 2 (fun t => if t = 0 then (1 : ℝ) else 0) (fun t => if t = 0 then (5 : ℝ) else 2) = .ok q ∧
-      q.1 0 = -5 ∧ q.2 0 = -2 ∧ q.1 1 = -1 ∧ q.2 1 = 0 := by
-  refine ⟨readPair 2 (supplyPair (fun t => if t = 0 then (1 : ℝ) else 0) (fun t => if t = 0 then (5 : ℝ) else 2)), ?_, ?_⟩
-  · have : boundsOrdered 2 (readPair 2 (supplyPair (fun t => if t = 0 then (1 : ℝ) else 0) (fun t => if t = 0 then (5 : ℝ) else 2))).1
-        (readPair 2 (supplyPair (fun t => if t = 0 then (1 : ℝ) else 0) (fun t => if t = 0 then (5 : ℝ) else 2))).2 = true := by
-      rw [boundsOrdered_iff]
-      intro t ht
-      have : t = 0 ∨ t = 1 := by omega
-      rcases this with rfl | rfl <;> (simp [readPair, supplyPair]; try norm_num)
-    unfold supplyBounds
-    rw [if_pos this]
-  · simp [readPair, supplyPair]
+/-- whenever the supply bounds are accepted they ARE the negated-and-swapped table (any scalar type,
+any horizon); the only other outcome is `ValueError` (mis-ordered input bounds). -/
+theorem supplyBounds_eq {α : Type} [Mul α] [Neg α] [OfNat α 1] [LE α] [DecidableLE α]
+    (basis : Nat) (lo hi : Nat → α) :
+    supplyBounds basis lo hi = .ok (supplyPair lo hi) ∨ supplyBounds basis lo hi = .error .valueError := by
+  unfold supplyBounds
+  by_cases h : boundsOrdered basis (supplyPair lo hi).1 (supplyPair lo hi).2 = true
+  · exact Or.inl (if_pos h)
+  · exact Or.inr (if_neg h)
+
+/-! ### regression statement about the OLD reading (before fix 375582f) — NOT the current code
+
+Before the fix `load_supply_device` built `np.array([bounds[:,1], bounds[:,0]])`, a `(2, basis)`
+array, which `validate_bounds` read as the pair (lower vector, upper vector) — except at
+`basis = 2`, where a `(2, 2)` array is a per-slot *table*.  `readPairOld` is that old reading; it is
+kept here only to state what the fix repaired, and is not part of the model. -/
+
+/-- OLD reading (pre-375582f) of the `(2, basis)` array; regression reference only. -/
+def readPairOld (basis : ℕ) (p : (ℕ → ℝ) × (ℕ → ℝ)) : (ℕ → ℝ) × (ℕ → ℝ) :=
+  if basis = 2 then
+    (fun t => if t = 0 then p.1 0 else p.2 0, fun t => if t = 0 then p.1 1 else p.2 1)
+  else p
+
+/-- **regression (D: supply at basis 2).** With bounds `[(1,5), (0,2)]` the current model gives the
+device `[(-5,-1), (-2,0)]`; the OLD reading gave `[(-5,-2), (-1,0)]`. -/
+theorem supply_basis2_regression :
+    (∃ q, supplyBounds 2 (fun t => if t = 0 then (1 : ℝ) else 0) (fun t => if t = 0 then (5 : ℝ) else 2) = .ok q ∧
+      q.1 0 = -5 ∧ q.2 0 = -1 ∧ q.1 1 = -2 ∧ q.2 1 = 0) ∧
+    (let old := readPairOld 2 (supplyPair (fun t => if t = 0 then (1 : ℝ) else 0) (fun t => if t = 0 then (5 : ℝ) else 2))
+     old.1 0 = -5 ∧ old.2 0 = -2 ∧ old.1 1 = -1 ∧ old.2 1 = 0) := by
+  constructor
+  · obtain ⟨q, hq, hs⟩ := supplyBounds_spec 2 (fun t => if t = 0 then (1 : ℝ) else 0) (fun t => if t = 0 then (5 : ℝ) else 2)
+      (by intro t ht
+          have : t = 0 ∨ t = 1 := by omega
+          rcases this with rfl | rfl <;> norm_num)
+    refine ⟨q, hq, ?_⟩
+    have h0 := hs 0
+    have h1 := hs 1
+    simp at h0 h1
+    exact ⟨h0.1, h0.2, h1.1, h1.2⟩
+  · simp [readPairOld, supplyPair]
 
 /-! ## the loaded device's bounds are the expansion -/
 section
